@@ -7,6 +7,7 @@ CONSTANTS
   LP = 0
   LQ = 0
   LR = 0
+  Ext = {}
 SPECIFICATION TraceSpec
 INVARIANT Judge
 POSTCONDITION Report
